@@ -642,9 +642,13 @@ fn run_alias(kind: usize, m: usize, out: &mut JobOut) {
 }
 
 fn body(ctx: &Ctx) -> (Summary, Meta) {
-    let full = !ctx.quick();
+    // the full layout alphabet costs well under a second: both tiers use it; the thorough tier adds a
+    // second family of data shapes
+    let full = true;
+    let deep = !ctx.quick();
     let mut jobs = vec![];
     let shapes_for = |rank: usize| -> Vec<usize> { [4usize, 3, 2, 2][..rank].to_vec() };
+    let shapes_alt = |rank: usize| -> Vec<usize> { [5usize, 4, 3, 2][..rank].to_vec() };
     let qshape = |inst: &str, alt: usize| -> Vec<Vec<usize>> {
         match inst {
             "Ix0" => vec![vec![]],
@@ -666,12 +670,18 @@ fn body(ctx: &Ctx) -> (Summary, Meta) {
                 if strat == "Linear" && qs.iter().product::<usize>() >= 2 {
                     jobs.push(Job { two_d: false, strat, data_shape: shapes_for(rank), query_shape: qs.clone(), inst: (d, dq), failing: true });
                 }
+                if deep {
+                    jobs.push(Job { two_d: false, strat, data_shape: shapes_alt(rank), query_shape: qs.clone(), inst: (d, dq), failing: false });
+                }
                 jobs.push(Job { two_d: false, strat, data_shape: shapes_for(rank), query_shape: qs, inst: (d, dq), failing: false });
             }
         }
     }
     for (d, dq, rank) in [("Ix2", "Ix1", 2), ("Ix3", "Ix1", 3), ("Ix4", "Ix1", 4), ("Ix3", "Ix2", 3), ("Ix3", "Ix3", 3), ("dyn", "dyn", 2), ("dyn", "dyn", 3), ("dyn", "dyn", 4), ("dyn", "Ix1", 3), ("Ix3", "dyn", 3)] {
         for qs in qshape(dq, 1) {
+            if deep {
+                jobs.push(Job { two_d: true, strat: "Bilinear", data_shape: shapes_alt(rank), query_shape: qs.clone(), inst: (d, dq), failing: false });
+            }
             jobs.push(Job { two_d: true, strat: "Bilinear", data_shape: shapes_for(rank), query_shape: qs, inst: (d, dq), failing: false });
         }
     }
